@@ -256,18 +256,28 @@ func firstBlockKind(doc ast.Node, last bool) string {
 type c09Indep struct {
 	a, b []byte
 	h    int
+	// arena (optional): A and then B are read into this one recycled buffer before they are converted, as a caller does that
+	// reuses its read buffer; the combined document comes from a slice of its own
+	arena *srcArena
 }
 
 // c09EvalIndep: status "ok", "skip:<why>", "fail" (conversion failed) or "bad".
 func c09EvalIndep(md goldmark.Markdown, cs *c09Indep) (status, locus, detail string, da, db ast.Node) {
-	ra := parseRender(md, cs.a)
+	srcA, srcB := cs.a, cs.b
+	if cs.arena != nil {
+		srcA = cs.arena.load(cs.a)
+	}
+	ra := parseRender(md, srcA)
 	if !ra.OK() {
 		return "fail", "", "", nil, nil
 	}
 	if open, why := c09EndsOpen(ra.Doc, cs.a); open {
 		return "skip:" + why, "", "", ra.Doc, nil
 	}
-	rb := parseRender(md, cs.b)
+	if cs.arena != nil {
+		srcB = cs.arena.load(cs.b)
+	}
+	rb := parseRender(md, srcB)
 	if !rb.OK() {
 		return "fail", "", "", ra.Doc, nil
 	}
@@ -332,6 +342,12 @@ func c09CheckIndep(c *core.Ctx, pool *cfg.Pool, spec cfg.Spec, cs *c09Indep) {
 		return
 	}
 	class := "neighbour-block-changed-rendering"
+	if cs.arena != nil {
+		c.Violation(&core.Violation{Class: class, Locus: locus + ":recycled-source-buffer", Config: name, Input: joined,
+			Detail: "A and then B were converted from one recycled source buffer (B written over A), the combined document from a slice of its own\n" + detail,
+			Script: map[string]any{"relation": "independence", "a": string(cs.a), "b": string(cs.b), "heading": cs.h, "recycled_buffer": true}})
+		return
+	}
 	if c.Seen(class, locus) {
 		c.Violation(&core.Violation{Class: class, Locus: locus, Config: name, Input: joined})
 		return
@@ -352,6 +368,33 @@ func c09CheckIndep(c *core.Ctx, pool *cfg.Pool, spec cfg.Spec, cs *c09Indep) {
 	}
 	c.Violation(&core.Violation{Class: class, Locus: locus, Config: name, Input: append(append(append([]byte(nil), a...), 0xfe), b...),
 		Detail: detail, Script: map[string]any{"relation": "independence", "a": string(a), "b": string(b), "heading": h}})
+}
+
+var c09TwinLines = [][2]string{{"* a b", "*a* b"}, {"- item", "-item-"}, {"1. one", "1.5 is"}, {"+ x y", "+x+ y"}, {"10) ab", "10)ab."}, {"# a b", "#a  b"}, {"## hh", "##hh."},
+	{"~~~ x", "~~x y"}, {"    c", "   cc"}, {"---", "--x"}, {"***", "**x"}, {"___", "__x"}, {"===", "==x"}, {"<div>", "<dix>"}, {"<!-- c -->", "<!- cc -->."}, {"| a | b |", "( a ) b )"},
+	{": def", ";:def"}, {"- ( ) t", "-( ) tt"}, {"> q r", ">q r."}, {"* * *", "* *x*"}, {"2. a", "2.a."}, {"-", "a"}, {"*\tb", "*b\t"}, {"   # h", "  x# h"}}
+var c09TwinFrames = [][2]string{{"", "\n"}, {"para\n\n", "\n\nafter\n"}, {"para\n", "\nmore\n"}, {"- x\n\n  ", "\n"}, {"> ", "\n> more\n"}, {"first\n\n", "\n\n---\n"}, {"| h | i |\n|---|---|\n", "\n"}}
+
+func c09Twins(c *core.Ctx, pool *cfg.Pool, specs []cfg.Spec) {
+	a := &srcArena{}
+	k := 0
+	for _, fr := range c09TwinFrames {
+		for _, tw := range c09TwinLines {
+			for order := 0; order < 2; order++ {
+				for si, sp := range specs {
+					k++
+					if !c.Mine(k) {
+						continue
+					}
+					x, y := tw[order], tw[1-order]
+					docA := []byte(fr[0] + x + fr[1])
+					docB := []byte(fr[0] + y + fr[1])
+					c09CheckIndep(c, pool, sp, &c09Indep{a: docA, b: docB, h: k + si, arena: a})
+					c.Count("twin_pairs_through_a_recycled_buffer", 1)
+				}
+			}
+		}
+	}
 }
 
 // ---- relation (ii): moving definitions ----
@@ -704,6 +747,11 @@ func runC09(c *core.Ctx) {
 			c.Sample(map[string]any{"relation": "independence", "config": sp.Name(), "A": q(a), "B": q(b)})
 		}
 	}
+	// (i-twins) A and B differ in one line only, and there only in how the line reads: a block opener and a look-alike of the
+	// same length at the same place ("* a b" / "*a* b", "1. one" / "1.5 is", "# a b" / "#a  b", "---" / "--x" ...). They are
+	// converted one after the other from one recycled buffer, in both orders; the combined document is converted from a slice
+	// of its own. What the parser decided about "the line at this place" for one must not be what it decides for the other.
+	c09Twins(c, pool, specs)
 	// (i') line-count boundaries: A is a plain document of exactly n lines, n on both sides of powers of two and ten, B is small
 	// and sensitive to blank-line bookkeeping. State that depends on how many lines came before shows only at such n.
 	bases := []int{100, 128, 256, 512, 1000, 1024, 2048, 4096}
